@@ -111,6 +111,24 @@ fn case(run: usize, scn: &Value) -> Value {
             }
             entry["queued"] = json!(q.iter().map(|(r, ks)| json!([r, ks])).collect::<Vec<_>>());
             entry["broadcast"] = json!(broadcast);
+            // one round with thousands of updates (the keys repeat): per target and key, how many arrive
+            if s == members[0] {
+                let nbig = 2500 + (run % 7) * 131;
+                let big: Vec<_> = (0..nbig).map(|i| mk_delta(&json!({"id": i, "k": ks[i % ks.len()], "t": "set", "v": "v", "ts": i + 1, "r": s}))).collect();
+                let r4 = GossipRouter::from_config(&cfg, shared.clone());
+                let mut gs = GossipState::with_router(cfg.clone(), r4);
+                gs.queue_deltas(big);
+                let mut cnt: BTreeMap<(u64, String), usize> = BTreeMap::new();
+                for m in gs.drain_outbound() {
+                    if let Some(t) = m.target {
+                        for d in m.message.into_deltas().unwrap_or_default() {
+                            *cnt.entry((t.0, d.key)).or_default() += 1;
+                        }
+                    }
+                }
+                entry["big"] = json!({"n": nbig, "mult": ks.iter().enumerate().map(|(i, k)| json!([k, (nbig + ks.len() - 1 - i) / ks.len()])).collect::<Vec<_>>(),
+                                      "got": cnt.iter().map(|((t, k), n)| json!([t, k, n])).collect::<Vec<_>>()});
+            }
         }
         routes.push(entry);
     }
@@ -166,6 +184,31 @@ pub fn main(args: &[String]) -> i32 {
             for _ in 0..a.usize("n", 100) {
                 let s = random_scn(&mut rng);
                 emit(&s, &mut out);
+            }
+        }
+        // placement of a fixed scenario computed in this process (used by `xproc` in child processes)
+        Some("child") => {
+            let scn: Value = serde_json::from_str(&a.pos[1]).unwrap();
+            let v = case(1, &scn);
+            println!("{}", json!({"keys": v["keys"].as_array().unwrap().iter().map(|k| json!([k["k"], k["def"], k["primary"]])).collect::<Vec<_>>()}));
+            return 0;
+        }
+        // every node is a process of its own: the same scenario placed by two fresh processes and by this one
+        Some("xproc") => {
+            let mut rng = rng(a.u64("seed", 1));
+            let exe = std::env::current_exe().unwrap();
+            for i in 0..a.usize("n", 6) {
+                let scn = random_scn(&mut rng);
+                let child = || -> Value {
+                    let o = std::process::Command::new(&exe).args(["place", "child", &scn.to_string()]).output();
+                    match o {
+                        Ok(o) => String::from_utf8_lossy(&o.stdout).lines().find_map(|l| serde_json::from_str::<Value>(l).ok()).map(|v| v["keys"].clone()).unwrap_or(json!("no output")),
+                        Err(e) => json!(format!("spawn failed: {e}")),
+                    }
+                };
+                let here = case(1, &scn);
+                let here_keys: Vec<Value> = here["keys"].as_array().unwrap().iter().map(|k| json!([k["k"], k["def"], k["primary"]])).collect();
+                out.emit(&json!({"t": "xproc", "run": i + 1, "scn": scn, "here": here_keys, "p1": child(), "p2": child()}));
             }
         }
         _ => {
